@@ -394,6 +394,13 @@ impl Message<Msg> for SA {
     }
 }
 
+/// answered at once, leaves no trace (see Step::WarmAsks)
+pub struct Nop;
+impl Message<Nop> for SA {
+    type Reply = ();
+    async fn handle(&mut self, _msg: Nop, _actor_ref: &ActorRef<Self>) {}
+}
+
 impl Message<MsgS> for SA {
     type Reply = String;
     async fn handle(&mut self, msg: MsgS, actor_ref: &ActorRef<Self>) -> String {
@@ -656,6 +663,25 @@ async fn exec(cx: &mut Cx<'_>, st: &Step) {
             tokio::time::sleep(ms(*d)).await;
         }
         Step::Park => std::future::pending::<()>().await,
+        Step::WarmAsks { slot, n } => {
+            let r = match resolve(cx, *slot) {
+                Got::Local(H::Strong(r)) => Some(r.clone()),
+                Got::Temp(H::Strong(r)) => Some(r),
+                _ => None,
+            };
+            let mut ok = 0u32;
+            if let Some(r) = r {
+                for k in 0..*n {
+                    if r.ask(Nop).await.is_ok() {
+                        ok += 1;
+                    }
+                    if k % 1000 == 0 {
+                        msched::scripted_progress();
+                    }
+                }
+            }
+            ev(EvK::Mark { actor: None, hook: cx.hook, msg: cx.msg, k: ok, inv: cx.inv });
+        }
         Step::Stall(d) => {
             let to = msched::now() + *d as u64;
             ev(EvK::Advance { to });
